@@ -49,7 +49,7 @@ CLAIMED = {
         engine="pyvc"),
     "C13": dict(
         category="other",
-        text="Exhaustive decision over the finite, fully enumerated space of model classes (397 Aggregate subclasses, 390 concrete, 2085 declared children): one obligation per (class, clause) for I1 lookup by tag, I2 list/sub-aggregate attribute naming, I3 groom/ungroom renames, I4 list adjacency (witness round trip), I5 mutex groups in force in every inheriting class and naming optional non-repeated children, I6 ElementList shape, I7 tag naming, I8 acyclic class graph, I9 for every declared child a witness instance is built, written, parsed by the real parser and read back into the same attribute.",
+        text="Exhaustive decision over the finite, fully enumerated space of model classes (397 Aggregate subclasses, 390 concrete, 2085 declared children): one obligation per (class, clause) for I1 lookup by tag, I2 list/sub-aggregate attribute naming, I3 groom/ungroom renames, I4 list adjacency (witness round trip), I5 mutex groups in force in every inheriting class and naming optional non-repeated children, I6 ElementList shape, I7 tag naming, I8 acyclic class graph, I11 a tree in declared order is read back whole, I12 no class is a strict subclass of a declared child type (the slot admits by isinstance, the writer uses the instance's class name), I9 for every declared child a witness instance is built, written, parsed by the real parser and read back into the same attribute.",
         design_ref="DESIGN.md 5 and 9 (C13)",
         note="Not a deductive proof: a complete evaluation of invariant predicates on every real class object (exhaustive: true), and an existence witness per declared child run through the real pipeline. The statement for all *values* of a child is the C01/C03 obligations, not this check. Known findings: TAX1099INT_V100 list adjacency; mutex groups naming a repeated child in TAX1099DIV/INT/MISC_V100.",
         technique="class invariants as contracts on the class objects, decided by exhaustive enumeration with per-child witnesses",
@@ -93,14 +93,14 @@ CLAIMED = {
         category="proof",
         text="Per-call contract of the real request_profile over a ghost file system and an abstract parser: the request carries the date of the profile held (none when nothing is cached); 'up to date' returns the cached bytes and leaves the cache untouched; a status-0 response is accepted only if not older than the one held, is written whole and returned; every failing path (transport failure, garbage, error status, 'up to date' with nothing cached, older profile) raises before the cache file is opened for writing and only for one of these reasons; dry runs write nothing. Hence, by induction over sequential histories, the cache is always absent or one complete accepted profile at least as new as any it held.",
         design_ref="DESIGN.md 9 (C15)",
-        note="NOT DECIDED by this technique family (no contract within reach, nothing substituted): a crash between open(...,'wb') and the completed write; interleavings of concurrent request_profile calls. Known finding: cache key <org>-<fid> ignores the URL. The induction over histories is argued from the per-call contract, not machine-checked; the bounded companion enumerates all histories of length <= 3 (4 thorough) over 8 server behaviours with client restarts on a real cache file.",
+        note="NOT DECIDED by this technique family (no contract within reach, nothing substituted): a crash between open(...,'wb') and the completed write; interleavings of the truncate/write steps of concurrent request_profile calls. Decided of the concurrency clause: a rely/guarantee variant of the per-call contract (every read of the cache file returns unconstrained content) proves that a successful call returns and writes only bytes it has itself parsed as a whole profile. The contract holds for either value of the persist option. Known findings: cache key <org>-<fid> ignores the URL and is not injective. The induction over histories is argued from the per-call contract, not machine-checked; the bounded companion enumerates all histories of length <= 3 (4 thorough) over 8 server behaviours with client restarts on a real cache file.",
         technique="contract with ghost file state and abstract parser (pyvc + z3); bounded enumeration of histories on real files",
         engine="pyvc"),
     "C06": dict(
         category="proof",
-        text="Proved on the real code with the model classes really instantiated and converters abstract: signon stores exactly the supplied password and user id, the configured language/appid/appver, FI iff ORG is set, CLIENTUID iff configured and version >= 103 (version symbolic 100..299); each of the five transaction-wrapper builders routes every argument to its own element (INCTRAN absent iff transactions are not asked for investment statements) and sets a transaction id; each wrap_stmtrq arm yields one wrapper per request, in order, carrying that request's fields and the client's bank/broker id; __init__ and serialize refuse close_elements=False for versions >= 200; serialize passes the configured or overridden version to make_header and chooses the body form by close_elements. The grouping in request_statements and the wire round trip are covered by a bounded composition run parsed back by the library.",
+        text="Proved on the real code with the model classes really instantiated and converters abstract: signon stores exactly the supplied password and user id, the configured language/appid/appver, FI iff ORG is set, CLIENTUID iff configured and version >= 103 (version symbolic 100..299); each of the five transaction-wrapper builders routes every argument to its own element (INCTRAN absent iff transactions are not asked for investment statements) and sets a transaction id; each wrap_stmtrq arm yields one wrapper per request, in order, carrying that request's fields and the client's bank/broker id; __init__ and serialize refuse close_elements=False for versions >= 200; serialize passes the configured or overridden version to make_header and chooses the body form by close_elements. request_statements' assembly (sort by kind, group, wrap, message sets, OFX) is proved for seven orders of request kinds with every field symbolic and the per-kind wrapping abstract: the OFX handed to download() holds exactly one wrapper per request, in the message set of its kind, requests of one kind in the order given, and the sign-on built from the password. The wire round trip is covered by a bounded composition run parsed back by the library.",
         design_ref="DESIGN.md 9 (C06)",
-        note="request_statements' sort/groupby assembly is bounded only (not under a symbolic contract): 11 versions x pretty x close_elements x ORG/FID x CLIENTUID x request multisets with credentials/ids incl. & < > quotes and non-ASCII, dates with offsets, all flags. A-UUID: uuid4 ids are distinct. Known finding KF-C01-unclosed-empty-aggregate shared with C01.",
+        note="request_statements' assembly is proved per pattern of request kinds (seven patterns, up to six requests), not for arbitrary lengths; bounded composition run: 11 versions x pretty x close_elements x ORG/FID x CLIENTUID x request multisets with credentials/ids incl. & < > quotes and non-ASCII, dates with offsets, all flags. A-UUID: uuid4 ids are distinct. Known finding KF-C01-unclosed-empty-aggregate shared with C01.",
         technique="contracts on the real builders with heap model instances and abstract converters (pyvc + z3); bounded compose-and-parse-back run",
         engine="pyvc"),
     "C02": dict(
@@ -126,9 +126,9 @@ CLAIMED = {
         engine="pyvc"),
     "C19": dict(
         category="proof",
-        text="request_stmt and request_stmtend are proved to hand OFXClient.request_statements exactly one request per configured account - in account-type order, with that account's type, the given start/end/as-of dates and include flags, none missing, duplicated or of another type - for eight account-list length patterns (0..3 accounts per type) with every account number and flag symbolic; _acctIsActive accepts ACTIVE only. Discovery with --all (extract, filter ACTIVE, merge in front of the configuration, bank/broker id) runs bounded on the real functions.",
+        text="request_stmt and request_stmtend are proved to hand OFXClient.request_statements exactly one request per configured account - in account-type order, with that account's type, the given start/end/as-of dates and include flags, none missing, duplicated or of another type - for eight account-list length patterns (0..3 accounts per type) with every account number and flag symbolic; _acctIsActive accepts ACTIVE only whatever the entry's other attributes (SUPTXDL, XFERSRC, XFERDEST) say; parse_bankacctinfos / parse_ccacctinfos / parse_invacctinfos are proved, for 0..3 listed entries with any status text, to return per account type exactly the ACTIVE entries' numbers in the order listed, and the bank / broker id entry iff one is ACTIVE; extractns is proved to keep every option that is not None with its very value (False, 0, '' included) and to drop the None ones. The rest of discovery with --all (reading the response, merging in front of the configuration) runs bounded on the real functions, half of the configured runs through the real argparse -> merge_config route.",
         design_ref="DESIGN.md 9 (C19)",
-        note="Callees of the commands (date conversion, password, client) are abstract recorders in the proofs. Lists longer than 3 by uniformity of the comprehensions (stated). --all is bounded only: sampled account-information responses and 184 configured patterns (729 thorough). One defect repaired (crash when no account of a kind is ACTIVE); known finding KF-C19-all-configured-inactive.",
+        note="Callees of the commands (date conversion, password, client) are abstract recorders in the proofs. Lists longer than 3 by uniformity of the comprehensions (stated). Of --all, extract_acctinfos and _merge_acctinfo are bounded only: sampled account-information responses and 184 configured patterns (729 thorough). One defect repaired (crash when no account of a kind is ACTIVE); known finding KF-C19-all-configured-inactive.",
         technique="map/concat postconditions on the real command functions with abstract callees (pyvc + z3); bounded runs of the discovery path",
         engine="pyvc"),
     "C17": dict(
